@@ -25,6 +25,7 @@ TD = oracle.TDIM
 KINDS = ["f", "fg", "sinx", "sqrt", "cond", "c0f", "gradf.gradg", "divvf", "cellvol", "x0",  # scalar
          "gradf", "vf", "x", "cvf", "asvec", "cT.gradf", "jac",  # vector / matrix
          "gradvf", "outer", "cTf", "symgrad", "hessg",  # tensor
+         "elimdiff3", "elimdiff", "elimdiff2",  # preprocessing eliminates a coefficient that precedes surviving ones (descriptor lists the survivors; w holds only them)
          "n.gradg", "n", "facetarea"]  # facet points only
 ARGS = ["none", "P1", "P2", "vP1", "N1curl1", "DG0", "vDG0", "P1xDG0"]
 POINTS = ["interior", "vertices", "interpP2", "two", "facet", "facet3"]
@@ -87,6 +88,7 @@ def build(cfg):
     V1 = ufl.FunctionSpace(mesh, el("P", cell, 1))
     V2 = ufl.FunctionSpace(mesh, el("P", cell, 2))
     VV = ufl.FunctionSpace(mesh, el("P", cell, 1, shape=(gdim,)))
+    k0 = ufl.Coefficient(ufl.FunctionSpace(mesh, el("DG", cell, 0)))  # created first: precedes every other coefficient in the original numbering
     f, g, vf = ufl.Coefficient(V1), ufl.Coefficient(V2), ufl.Coefficient(VV)
     c0 = ufl.Constant(mesh)
     cv = ufl.Constant(mesh, shape=(gdim,))
@@ -108,6 +110,7 @@ def build(cfg):
         "asvec": lambda: ufl.as_vector([f, g * f]), "cT.gradf": lambda: ufl.dot(cT, ufl.grad(f)), "jac": lambda: ufl.Jacobian(mesh),
         "gradvf": lambda: ufl.grad(vf), "outer": lambda: ufl.outer(ufl.grad(f), ufl.grad(g)), "cTf": lambda: cT * f,
         "symgrad": lambda: ufl.sym(ufl.grad(vf)), "hessg": lambda: ufl.grad(ufl.grad(g)),
+        "elimdiff3": lambda: _elimdiff(g, f, vf), "elimdiff": lambda: _elimdiff(k0, g, vf), "elimdiff2": lambda: _elimdiff(f, vf[0], g) * k0,
         "n.gradg": lambda: ufl.inner(n, ufl.grad(g)), "n": lambda: n * f, "facetarea": lambda: ufl.FacetArea(mesh) * f,
     }[kind]
     if kind == "cellvol" and (cdeg != 1 or cell not in forms.SIMPLEX):
@@ -175,7 +178,13 @@ def build(cfg):
         fref = np.asarray(basix.geometry(fct))
         c = fref.mean(axis=0)
         P = np.vstack([c * 0.6 + 0.07, c * 1.2 - 0.03]) if pk == "facet" else np.vstack([c * 0.6 + 0.07, c * 1.2 - 0.03, fref[0] * 0.5 + c * 0.5])
-    return mesh, e, np.ascontiguousarray(P, dtype=np.float64), dict(f=f, g=g, vf=vf), dict(c0=c0, cv=cv, cT=cT), cdeg, gdim
+    return mesh, e, np.ascontiguousarray(P, dtype=np.float64), dict(f=f, g=g, vf=vf, k0=k0), dict(c0=c0, cv=cv, cT=cT), cdeg, gdim
+
+
+def _elimdiff(a, b, c):
+    """d/dv (a + b v.v / 2) at v = c: the additive coefficient a disappears under the derivative, b and c survive."""
+    v = ufl.variable(c)
+    return ufl.diff(a + 0.5 * b * ufl.inner(v, v), v)
 
 
 def work(item):
